@@ -81,7 +81,7 @@ func (propC04) Gen(r *Rng, run uint64, tier string) *Plan {
 	return p
 }
 
-func (propC04) Expand(p *Plan) []*Plan { return []*Plan{p} }
+func (propC04) Expand(t *testing.T, p *Plan) []*Plan { return []*Plan{p} }
 
 type recKey struct {
 	cid  string
